@@ -24,6 +24,30 @@ NOT_APPLICABLE = {
 
 # id -> (technique, level text, level note, design ref)
 CLAIMS = {
+    'C01': ('exchange-symmetry of canonicalised AST fragments, endpoint-coherence lint, table/plumbing agreement, '
+            'provenance-based omega-family typing of contractions',
+            'Static, exhaustive over the rate construction, LIMB back-fill, probability symmetrisation, the data plumbing '
+            'and every contraction of VacancyMediated.Lij: decides that the rates are built exchange-symmetrically from '
+            'their own endpoints (a necessary condition of detailed balance for non-uniform energies), that keys/orders '
+            'of the pipeline agree, and that each np.dot combines arrays of the same omega family by provenance. The '
+            'equality with the exact Markov chain is numerical and is NOT decided.',
+            'trusts CPython ast; canonical form treats + and * as commutative/associative (true for the scalars and '
+            'numpy element-wise operations involved)',
+            'DESIGN.md §4 C01'),
+    'C18': ('dimension-context abstract interpretation (dimgen), symtable/arity resolution, operator-kind composition typing',
+            'Static, exhaustive over the group-construction routines and the GroupOp algebra: decides that no hard-coded '
+            'spatial dimension lies on a path 2D crystals take (incl. NOSYM), that all names/calls resolve, and that '
+            'rotations are composed within one coordinate kind (cartrot = L.rot.L^-1). Closure / isometry / permutation '
+            'correctness are numerical and not decided.',
+            'trusts CPython ast/symtable; the repository\'s own dimension tests define the 2D/3D contexts',
+            'DESIGN.md §4 C18'),
+    'C23': ('coordinate-kind type system (latt/unit/cart and operator kinds) over the conversion and symmetry-action '
+            'routines, arity/name resolution, dimension-context analysis',
+            'Static, exhaustive over 26 routines: decides that each operator is applied to vectors of its domain kind, that '
+            'sums combine equal kinds, that documented return/field kinds are respected, that every route resolves with '
+            'a compatible argument list, and that the routines are dimension-generic. Numerical round-trips are not decided.',
+            'trusts CPython ast; parameter kinds are a frozen table taken from the docstrings',
+            'DESIGN.md §4 C23'),
     'C33': ('who-may-write lint (owner), observer purity, paired-update shape with the sign convention read from start(), '
             'element-wise (scalar-index) count-update rule, mirror rule between deltaE_trial and update',
             'Static, exhaustive over MonteCarloSampler: decides that only __init__/start/update write sampler state, that the '
